@@ -19,9 +19,9 @@ RULE = (
     "dangling parent (removed by cleaning); half of the data sets use "
     "minute-scale times with time_buffer=1 (traces at the edges are removed "
     "by the first cleaning); sync or async; one large data set (~1100 "
-    "spans, batch size 1000) runs two short histories. Quick: ALL 36 "
+    "spans, batch size 1000) runs two short histories. Quick: ALL 52 "
     "histories of length <=2 on one drawn data set per seed; thorough: all "
-    "292 of length <=3 on two data sets plus drawn histories of length 4 on "
+    "436 of length <=3 on two data sets plus drawn histories of length 4 on "
     "drawn data sets. Oracle (model-based): every run exits 0; every run "
     "with -se writes, per workflow, exactly the surviving traces (all of "
     "them without -ug; with -ug one trace per canonical call-tree shape - "
@@ -45,6 +45,13 @@ def histories(maxlen):
     for n in range(1, maxlen + 1):
         for h in itertools.product(first, *([FLAGS] * (n - 1))):
             out.append([list(x) for x in h])
+    # histories that begin on the empty store without ingesting
+    for f0 in [f for f in FLAGS if not f[0]]:
+        for f1 in first:
+            out.append([list(f0), list(f1)])
+            if maxlen >= 3:
+                for f2 in FLAGS:
+                    out.append([list(f0), list(f1), list(f2)])
     return out
 
 
@@ -87,7 +94,11 @@ def run_history(case):
                 pv = refseq.expected_pv(spans, bool(data_case.get("async")))
                 want.setdefault(name, {})[tid] = (
                     shape(spans, root), c14.canon_events(pv.values()))
+        full_want = want
+        ingested = False
         for ri, (ingest, ug, se) in enumerate(case["history"]):
+            ingested = ingested or ingest
+            want = full_want if ingested else {}
             out = os.path.join(tmp, f"out{ri}")
             argv = ["-o", out, "otel2pv", "-c", cfgp]
             if not ingest:
@@ -216,6 +227,39 @@ def second_trim_effect(d):
     return bool(second) and len(second) < len(first)
 
 
+def straddler_with_unique_shape(d):
+    """Is there a surviving trace none of whose spans lies completely inside
+    the window, with a shape no other surviving trace of its workflow has?"""
+    import checks.c14 as c14
+    wfs = c14.spans_of(d)
+    tb = d.get("time_buffer", 0) * 60 * 10**9
+    if not tb:
+        return False
+    allsp = [s for tr in wfs.values() for sp in tr.values()
+             for s in sp.values()]
+    lo = min(s["start"] for s in allsp) + tb
+    hi = max(s["end"] for s in allsp) - tb
+    if lo >= hi:
+        return False
+    for name, traces in wfs.items():
+        surv = {}
+        for tid, spans in traces.items():
+            ids = set(spans)
+            if any(s["parent"] is not None and s["parent"] not in ids
+                   for s in spans.values()):
+                continue
+            if any(lo <= s["start"] <= hi or lo <= s["end"] <= hi
+                   for s in spans.values()):
+                root = [i for i, s in spans.items() if s["parent"] is None][0]
+                surv[tid] = (shape(spans, root), not any(
+                    lo <= s["start"] and s["end"] <= hi
+                    for s in spans.values()))
+        for tid, (sh, straddles) in surv.items():
+            if straddles and sum(1 for v in surv.values() if v[0] == sh) == 1:
+                return True
+    return False
+
+
 def big_dataset():
     """one workflow, 140 traces of 8 spans (two shapes), batch size 1000"""
     tmpl = [[None, "A0", 0, 9], [0, "A1", 1, 2], [0, "A2", 4, 2],
@@ -236,6 +280,8 @@ def classify(case):
     ugs = [i for i, x in enumerate(h) if x[1]]
     nt = len(h) >= 2 and (any(not x[0] for x in h[1:]) or len(ugs) >= 2)
     cl = [f"runs={len(h)}"]
+    if not h[0][0]:
+        cl.append("first_run_on_empty_store_without_ingest")
     if any(not x[0] for x in h[1:]):
         cl.append("later_run_without_ingest")
     if any(x[0] for x in h[1:]):
@@ -248,6 +294,8 @@ def classify(case):
             cl.append("window_removes_a_trace")
         if second_trim_effect(case["data"]):
             cl.append("second_trim_would_remove_more")
+        if straddler_with_unique_shape(case["data"]):
+            cl.append("straddling_trace_with_unique_shape")
     if sum(len(t) for w in case["data"]["workflows"]
            for t in w["traces"]) > 999:
         cl.append("more_than_999_spans_in_one_batch")
@@ -314,6 +362,7 @@ def draw_datasets(n, seed):
         return (len(d["workflows"]) >= 2) + (ntr >= 4) + \
             bool(d.get("time_buffer")) + 2 * bool(k and r) + \
             3 * bool(d.get("time_buffer") and second_trim_effect(d)) + \
+            3 * bool(straddler_with_unique_shape(d)) + \
             any(t[1][0] == 99 for w in d["workflows"] for t in w["traces"]
                 if len(t) > 1)
     out.sort(key=score, reverse=True)
